@@ -49,6 +49,18 @@ fn run(name: String, n: usize) -> String {
     let walk_span = sw.span();
     if w.is_err() { return format!("{{\"family\": \"{}\", \"n\": {}, \"ok\": false, \"stage\": \"walk\", \"detail\": \"{:?}\"}}", name, n, w) }
     let out = sw.inner.write();
+    // the same text read without a trace must be accepted too, and the written text must read back and write to itself
+    let mut b0 = Builder::new();
+    let r0 = read(&text, &mut b0, None);
+    if r0.is_err() { return format!("{{\"family\": \"{}\", \"n\": {}, \"ok\": false, \"stage\": \"read without trace\", \"detail\": \"{:?}\"}}", name, n, r0) }
+    match b0.build() { Ok(g0) if g0.len() == atoms => (), other => return format!("{{\"family\": \"{}\", \"n\": {}, \"ok\": false, \"stage\": \"build without trace\", \"detail\": \"{:?}\"}}", name, n, other.map(|g| g.len())) }
+    let mut b1 = Builder::new();
+    let r1 = read(&out, &mut b1, None);
+    if r1.is_err() { return format!("{{\"family\": \"{}\", \"n\": {}, \"ok\": false, \"stage\": \"reread of written text\", \"detail\": \"{:?}\"}}", name, n, r1) }
+    let g1 = match b1.build() { Ok(g1) if g1.len() == atoms => g1, other => return format!("{{\"family\": \"{}\", \"n\": {}, \"ok\": false, \"stage\": \"rebuild of written text\", \"detail\": \"{:?}\"}}", name, n, other.map(|g| g.len())) };
+    let mut w1 = Writer::new();
+    if let Err(e) = walk(g1, &mut w1) { return format!("{{\"family\": \"{}\", \"n\": {}, \"ok\": false, \"stage\": \"rewalk\", \"detail\": \"{:?}\"}}", name, n, e) }
+    if w1.write() != out { return format!("{{\"family\": \"{}\", \"n\": {}, \"ok\": false, \"stage\": \"written text is not a fixed point\", \"detail\": \"\"}}", name, n) }
     format!("{{\"family\": \"{}\", \"n\": {}, \"ok\": true, \"atoms\": {}, \"events\": {}, \"read_span_bytes\": {}, \"walk_span_bytes\": {}, \"same_text\": {}, \"text_len\": {}}}",
             name, n, atoms, read_events, read_span, walk_span, out == text, out.len())
 }
